@@ -210,6 +210,8 @@ GUARDS = [
     ("roots_constraint_under_multiple_shooting", "multiple_shooting.py", "MultipleShooting", "add_constraints", "raise_if", ["integrator_roots"]),
     ("roots_constraint_under_single_shooting", "single_shooting.py", "SingleShooting", "add_constraints", "raise_if", ["integrator_roots"]),
     ("spline_time_varying_or_nonlinear", "spline_method.py", "SplineMethod", None, "raise_any", ["linear"]),
+    # the right-hand side itself (not only its Jacobians) must be free of time: an added term w(t) would be dropped silently
+    ("spline_time_dependence", "spline_method.py", "SplineMethod", "transcribe_start", "assert", ["sparsity_in", "nnz"]),
     ("inf_unsupported_operation", "casadi_helpers.py", None, "reinterpret_expr", "raise_any", ["not supported"]),
 ]
 
